@@ -232,9 +232,8 @@ impl<E: Pairing> Valid for VerifierKey<E> {
         if self.num_vars == 0 {
             return Err(SerializationError::InvalidData);
         }
-        if self.supported_degree == 0 {
-            return Err(SerializationError::InvalidData);
-        }
+        // `trim` hands out keys with `supported_degree == 0` (constant polynomials only);
+        // they have to survive a round trip like every other key.
         if self.max_degree == 0 || self.max_degree < self.supported_degree {
             return Err(SerializationError::InvalidData);
         }
